@@ -135,7 +135,7 @@ func loBuild(p loP) (*world.World, *http.Request, *loTruth) {
 		o.ID = "_id-ü&\"'<>"
 	}
 	inst := map[string]string{"": "-1s", "-1y": "-1y", "-1h": "nofrac-", "now": "now", "+1us": "+1us", "+1s": "+1s", "+1h": "nofrac+", "junk": "junk", "tz": "tz", "nofrac-": "nofrac-", "9dig-": "9dig-", "date": "date"}[p.Instant]
-	if strings.HasPrefix(p.Instant, "zone") {
+	if strings.HasPrefix(p.Instant, "zone") || strings.HasPrefix(p.Instant, "y") || p.Instant == "max" || p.Instant == "zero" || p.Instant == "epoch" || p.Instant == "leap" {
 		inst = p.Instant
 	}
 	if inst == "" {
